@@ -6,6 +6,7 @@ mod c05;
 mod c08;
 mod c10;
 mod c11;
+mod c13q;
 mod sim;
 
 fn main() {
@@ -17,6 +18,7 @@ fn main() {
         "C08" => c08::run(cfg),
         "C10" => c10::run(cfg),
         "C11" => c11::run(cfg),
+        "C13" => c13q::run(cfg),
         other => {
             eprintln!("vh-store: unknown property {other}");
             std::process::exit(2);
